@@ -37,7 +37,10 @@ PARTIAL = ['gain_profile_normalised_partial: proved exact in three cases: flat c
            '(gain_profile_normalised_const_dgt via secantStep_affine: the secant step is exact when the average gain '
            'is affine in the DGT scale). In general the average gain is a strictly convex log-sum-exp of the scale and '
            'one secant step only approximates the target: the profile is g1st - voa + dgt*x for one scalar x (proved) '
-           'and the residual of the average gain is bounded by the monitor (0.02 dB), not by a theorem']
+           'and the residual of the average gain is bounded by the monitor (0.02 dB), not by a theorem; when the '
+           'channel gains differ by at most 0.05 dB the code skips the step altogether ("not enough ripple to consider '
+           'calculation") and sets their arithmetic mean to the effective gain: the monitor then allows the excursion '
+           'itself (every weighted mean of the gains lies in the same window)']
 RULE = ('cases from one PRNG: (a) 66% amplifier crossings: an amplifier of a shipped library or of a generated '
         'library (variable/fixed gain, advanced polynomial with ripple, OpenROADM ila/preamp/booster, dual stage, '
         'custom bands/default configs), gain -5..40 dB, tilt in {0,+-1,+-2,random}, in/out VOA, 1-3 consecutive calls '
@@ -516,6 +519,13 @@ def run_call(case, drv):
         amplified_in = math.fsum(pi * g for pi, g in zip(p_in, g_lin))
         tot_gain = 10 * math.log10(amplified_in / ptot)
         tol_db = 1e-7 if (flat_cfg or n == 1) else TILT_RESIDUAL_DB
+        excursion = max(g_db) - min(g_db)
+        if not (flat_cfg or n == 1) and excursion <= 0.05 + 1e-9 and min(g_db) - 1e-9 <= eff <= max(g_db) + 1e-9:
+            # the algorithm's stated accuracy ("not enough ripple to consider calculation", |max - min| <= 0.05 dB): it then
+            # sets the arithmetic mean of the channel gains to the effective gain; the power-weighted total gain lies inside
+            # the same window, so it differs from the effective gain by at most the excursion itself
+            tol_db = max(tol_db, excursion)
+            res.stats['tilt_residual_bounded_by_flatness_window'] += 1
         if abs(tot_gain - eff) > tol_db:
             res.fail(f'total gain: total incoming power raised by {tot_gain:.6f} dB, effective gain {eff:.6f} dB '
                      f'(tolerance {tol_db})', call=ci)
